@@ -316,3 +316,184 @@ Example C06_example_filter :
            ("snmp x", T [("y", T [])])]
   = OTree [("interface Eth1", T [("mtu 9000", T []); ("speed 10", T [])]); ("snmp x", T [("y", T [])])].
 Proof. vm_compute. reflexivity. Qed.
+
+(* ================================================================================== *)
+(* The ACL TEXT front end (Model/AclText.v: compile_acl_text = _split_rows, the offside parser with
+   "#" comments, _parse_raw_rule with its %params and validators, _merge_toplevel, _compile_acl).
+   Proofs live in Proofs/AclTextParse.v, AclTextGroup.v, AclTextProofs.v. *)
+From Annet Require Import Model.Offside Model.GenProg Model.AclText Spec.P_C05 Spec.P_C06_text
+     Proofs.OffsideProofs Proofs.AclTextParse Proofs.AclTextGroup Proofs.AclTextProofs.
+
+(* The text printed from a structured ACL (harness/aclgen.py acl_text: one line per item, four blanks
+   per level, children below their parent — any depth, any width, repeated lines included) compiles
+   to exactly what compile_acl makes of the structured ACL; the guard acl_ok says that every line is
+   its own key (stripped, not a comment, not a continuation row) and parses, by the model of
+   _parse_raw_rule and the validators, to the fields its item carries.  Through this equation every
+   theorem above about compile_acl / structured ACLs is a theorem about compile_acl_text of the
+   printed text. *)
+Theorem C06_text_roundtrip :
+  forall (a : acl) (v : avendor),
+    acl_ok a -> compile_acl_text (acl_text a) v = structured_outcome a.
+Proof. exact text_roundtrip. Qed.
+Print Assumptions C06_text_roundtrip.
+
+(* the same with the decidable guard the correspondence run evaluates on every generated ACL *)
+Theorem C06_text_roundtrip_b :
+  forall (a : acl) (v : avendor),
+    acl_okb a = true -> compile_acl_text (acl_text a) v = structured_outcome a.
+Proof. intros a v H. apply text_roundtrip. apply acl_okb_ok. exact H. Qed.
+Print Assumptions C06_text_roundtrip_b.
+
+(* the structured ACL the text stands for: the parsed text is the grouping parse_items describes *)
+Theorem C06_text_acl_printed :
+  forall a, acl_ok a -> text_acl (acl_text a) = inr (Acl.parse_items (S (acl_depth a)) a).
+Proof. exact text_acl_printed. Qed.
+Print Assumptions C06_text_acl_printed.
+
+(* the parser on a printed text, any depth: the tree of the lines' paths; one level of it *)
+Theorem C06_text_parse_printed :
+  forall a, acl_ok a -> rb_parse (acl_text a) = Ok (aforest a).
+Proof. exact rb_parse_acl_text. Qed.
+Print Assumptions C06_text_parse_printed.
+
+Theorem C06_text_tree_levels :
+  forall a, aforest a =
+            map (fun k => (k, T (aforest (flat_map ai_kids (grp_raw a k))))) (first_keys [] (map ai_raw a)).
+Proof. exact aforest_unfold. Qed.
+Print Assumptions C06_text_tree_levels.
+
+(* Two printed texts one after the other compile to compile_acl of the concatenated structured ACLs:
+   the object C06_monotone_texts and C06_compile_dominated quantify over (acl_concat), with
+   _merge_toplevel's uniters (or / list concatenation / max, Model/Acl.v compile_items) applied to
+   lines of A and B that share a rule row, and the text parser's merge of identical lines. *)
+Theorem C06_text_concat :
+  forall (a b : acl) (v : avendor),
+    acl_ok a -> acl_ok b -> a <> [] -> b <> [] ->
+    compile_acl_text (acl_text a ++ nl_s ++ acl_text b) v = structured_outcome (acl_concat a b).
+Proof. exact text_concat_printed. Qed.
+Print Assumptions C06_text_concat.
+
+(* Any two texts (not only printed ones): when b does not begin with a continuation row and every
+   section of a and of b starts in column 0, the text a + "\n" + b inserts a's paths and then b's
+   paths into one tree, and compile_acl_text is the compilation of that tree. *)
+Theorem C06_text_concat_paths :
+  forall (a b : string) pa pb (v : avendor),
+    cont_line b = false -> text_sect0 a = true -> text_sect0 b = true ->
+    text_paths a = Some pa -> text_paths b = Some pb ->
+    text_paths (a ++ nl_s ++ b) = Some (pa ++ pb) /\
+    compile_acl_text (a ++ nl_s ++ b) v = compile_paths (pa ++ pb).
+Proof.
+  intros a b pa pb v Hc Sa Sb Ha Hb. split; [apply text_paths_concat | apply text_concat]; assumption.
+Qed.
+Print Assumptions C06_text_concat_paths.
+
+(* NOT proved: for arbitrary texts a, b with text_acl a = inr A and text_acl b = inr B the equation
+   compile_acl_text (a + "\n" + b) = structured_outcome (A ++ B).  By C06_text_concat_paths it remains to
+   show that inserting b's paths in text order and inserting the preorder paths of b's tree build the
+   same tree on top of a's tree (insall ps f = insall (paths [] (insall ps [])) f), and that no row
+   of a or b is skipped (bare "!" rows, %context rows). *)
+Definition C06_text_concat_general_statement : Prop :=
+  forall (a b : string) (x y : acl) (v : avendor),
+    cont_line b = false -> text_sect0 a = true -> text_sect0 b = true ->
+    text_acl a = inr x -> text_acl b = inr y ->
+    compile_acl_text (a ++ nl_s ++ b) v = structured_outcome (acl_concat x y).
+
+(* Blank rows and comment rows are irrelevant: texts whose rows differ only in rows the parser skips
+   compile to the same rules (a ParserError names the same row; only its line number moves) ... *)
+Theorem C06_comment_blank_irrelevant :
+  forall (t1 t2 : string) (v : avendor),
+    filter not_skip (text_items t1) = filter not_skip (text_items t2) ->
+    tres_nolineno (compile_acl_text t1 v) = tres_nolineno (compile_acl_text t2 v).
+Proof. exact text_skip_irrelevant. Qed.
+Print Assumptions C06_comment_blank_irrelevant.
+
+(* ... in particular a blank line or an indented "#" comment put between two lines of a text *)
+Theorem C06_comment_blank_line_irrelevant :
+  forall (a c b : string) (v : avendor),
+    skip_line c = true -> cont_line b = false ->
+    tres_nolineno (compile_acl_text (a ++ nl_s ++ c ++ nl_s ++ b) v) =
+    tres_nolineno (compile_acl_text (a ++ nl_s ++ b) v).
+Proof. exact text_skip_line_irrelevant. Qed.
+Print Assumptions C06_comment_blank_line_irrelevant.
+
+(* ... but not a "#" comment in column 0: it ends the block (tabparser's BlockEnd applies to rulebook
+   texts), the children below it become top-level rules — replayed on the real compile_acl_text *)
+Theorem C06_col0_comment_irrelevant_refuted :
+  exists a c b v,
+    startswith "#" c = true /\
+    compile_acl_text (a ++ nl_s ++ c ++ nl_s ++ b) v <> compile_acl_text (a ++ nl_s ++ b) v.
+Proof. exact col0_comment_relevant. Qed.
+Print Assumptions C06_col0_comment_irrelevant_refuted.
+
+(* surplus fuel does not change _compile_acl *)
+Theorem C06_compile_fuel :
+  forall f f' x, acl_depth x <= f -> acl_depth x <= f' -> compile_items f x = compile_items f' x.
+Proof. exact compile_items_fuel. Qed.
+Print Assumptions C06_compile_fuel.
+
+(* non-vacuity of acl_ok: nesting, every parameter, a repeated line, two lines with one row *)
+Definition text_example : acl :=
+  [AItem "interface * %cant_delete=0,1 %generator_names=g1,g2" "interface *" false false (Some [false; true]) 0 ["g1"; "g2"]
+         [AItem "mtu * %prio=3" "mtu *" false false None 3 []
+                [AItem "~ %global" "~" false true None 0 [] []];
+          AItem "ip ~ %cant_delete" "ip ~" false false (Some [true]) 0 [] []];
+   AItem "vlan 1 %prio=0" "vlan 1" false false None 0 [] [];
+   AItem "interface * %cant_delete=0,1 %generator_names=g1,g2" "interface *" false false (Some [false; true]) 0 ["g1"; "g2"]
+         [AItem "description ~" "description ~" false false None 0 [] []];
+   AItem "vlan 1 %prio=2 %generator_names=g3" "vlan 1" false false None 2 ["g3"] []].
+
+Example C06_example_text_ok : acl_okb text_example = true.
+Proof. vm_compute. reflexivity. Qed.
+
+Example C06_example_text_compiled :
+  compile_acl_text (acl_text text_example) no_vendor =
+  inr ([ARule "interface *" [false; true] 0 ["g1"; "g2"]
+              [ARule "mtu *" [false] 3 [] [] [ARule "~" [false] 0 [] [] []];
+               ARule "ip ~" [true] 0 [] [] [];
+               ARule "description ~" [false] 0 [] [] []] [];
+        ARule "vlan 1" [false; false] 2 ["g3"] [] []], []).
+Proof. vm_compute. reflexivity. Qed.
+
+(* non-vacuity of the guards of C06_text_concat_paths and of skip_line *)
+Example C06_example_concat_paths :
+  let a := "interface *
+    mtu *  %global
+# section
+vlan *" in
+  let b := "interface *
+  %cant_delete
+    ip ~" in
+  cont_line b = false /\ text_sect0 a = true /\ text_sect0 b = true /\
+  text_paths a = Some [["interface *"]; ["interface *"; "mtu *  %global"]; ["vlan *"]] /\
+  text_paths b = Some [["interface *   %cant_delete"]; ["interface *   %cant_delete"; "ip ~"]].
+Proof. vm_compute. repeat split. Qed.
+
+Example C06_example_skip_line : skip_line "      # a comment" = true /\ skip_line "   " = true /\ skip_line "# col 0" = false.
+Proof. vm_compute. repeat split. Qed.
+
+(* NOT proved (tested instead: the correspondence run evaluates acl_okb on every structured ACL
+   aclgen generates): the line printer of harness/aclgen.py, raw_rule (Model/AclText.v print_raw),
+   always produces a line inside the guard of C06_text_roundtrip.  Missing: the scanner pscan on a
+   concatenation (row, then " %key=value" groups), split_list of a comma-joined list, and
+   nat_of_digits (dec n) = n. *)
+From Coq Require Import Ascii.
+From Annet Require Model.Json.
+From Annet Require Import Model.PatternT.
+Definition gen_name_ok (g : string) : bool :=
+  negb (is_empty g) && forallb (fun c => negb (is_ws c) && negb (is_delim c)) (list_ascii_of_string g).
+Definition pat_ok (pat : string) : bool :=
+  line_ok pat && String.eqb (raw_row pat) pat && negb (existsb (Ascii.eqb "%"%char) (list_ascii_of_string pat))
+  && negb (startswith "!" pat).
+Definition C06_print_raw_statement : Prop :=
+  forall pat glob cd cd_bare prio prio_explicit gens,
+    pat_ok pat = true -> forallb gen_name_ok gens = true -> cd <> Some [] ->
+    let raw := print_raw pat false glob cd cd_bare prio prio_explicit gens Json.dec in
+    line_ok raw = true /\ parse_line raw = LItem pat false glob cd prio gens.
+
+Example C06_example_print_raw :
+  let raw := print_raw "interface */[a-z0-9]+/ ~" false true (Some [true; false]) false 12 true ["g1"; "g2"] Json.dec in
+  raw = "interface */[a-z0-9]+/ ~ %global %cant_delete=1,0 %prio=12 %generator_names=g1,g2" /\
+  pat_ok "interface */[a-z0-9]+/ ~" = true /\
+  line_ok raw = true /\
+  parse_line raw = LItem "interface */[a-z0-9]+/ ~" false true (Some [true; false]) 12 ["g1"; "g2"].
+Proof. vm_compute. repeat split. Qed.
